@@ -7,6 +7,8 @@ import Driver.Disabled
 import Driver.Rounds
 import Driver.Des
 import Driver.Context
+import Driver.Blowfish
+import Driver.Scrypt
 /-
 Line protocol driver: `<suite> <op> <args…>` per input line, one result line out.
 Compiled (`lean_exe modeldrv`); nothing imported here touches Mathlib.
@@ -22,6 +24,8 @@ def dispatch (line : String) : String :=
   | "rounds" :: rest => Driver.Rounds.handle rest
   | "des" :: rest => Driver.Des.handle rest
   | "ctx" :: rest => Driver.Context.handle rest
+  | "bf" :: rest => Driver.Blowfish.handle rest
+  | "scrypt" :: rest => Driver.Scrypt.handle rest
   | _ => Driver.bad
 
 partial def loop (h : IO.FS.Stream) (out : IO.FS.Stream) : IO Unit := do
